@@ -28,7 +28,7 @@ def run(ctx):
 
     # ---- C19.1 extension dispatch ------------------------------------------
     lits = compared_literals(sr.node, "extension")
-    ctx.ob("R-REG", "C19.1", sr, "extensions json / hdf5 / h5 are handled and anything else is rejected", {"json", "hdf5", "h5"} <= lits and _chain_ends_in_raise(sr.node, "extension"), f"{sorted(lits)}")
+    ctx.ob("R-REG", "C19.1", sr, "extensions json / hdf5 / h5 are handled and anything else is rejected", {"json", "hdf5", "h5"} <= lits and _chain_ends_in_raise(sr, "extension"), f"{sorted(lits)}")
     js = sa.find_calls("save_to_json")
     h5 = sa.find_calls("save_dict_to_hdf5")
     ctx.require(len(js) == 1 and len(h5) == 1, "save_results: expected one JSON and one HDF5 writer call")
